@@ -143,6 +143,10 @@ def gen_args(rng, mgr):
         for _ in range(n):
             s, d = rng.sample(CLASS_NAMES, 2)
             pairs.append([s, d])
+        if rng.random() < 0.12:
+            # an entry that fails half-way: the __new__ of an immutable type cannot
+            # be patched (fault: exception raised inside __enter__)
+            pairs.append(['<int>', rng.choice(CLASS_NAMES)])
         return [pairs]
     if mgr in ('dynamic_evaluate', 'dynamic_evaluate_global'):
         return [rng.choice([None, 1, 2, 3])]
@@ -362,7 +366,8 @@ def make_cm(mgr, a, env):
     if mgr == 'coding_permission':
         return pg.coding.permission(PERMS[a[0]])
     if mgr == 'detour':
-        return pg.detour([(env.classes[s], env.classes[d]) for s, d in a[0]])
+        return pg.detour([(int if s == '<int>' else env.classes[s], env.classes[d])
+                          for s, d in a[0]])
     if mgr == 'dynamic_evaluate':
         return pg.hyper.dynamic_evaluate(env.fns.get(a[0]), per_thread=True)
     if mgr == 'dynamic_evaluate_global':
@@ -649,6 +654,13 @@ def _run(case, sim, clock):
                         except sched.SimAbort:
                             raise
                         except Exception as ex:  # pylint: disable=broad-except
+                            if mgr == 'detour' and any(s == '<int>' for s, _ in a[0]) \
+                                    and isinstance(ex, TypeError):
+                                # the entry failed as it must: nothing was entered, the
+                                # state has to be what it was (checked right below)
+                                fault('scope_enter_fails')
+                                check('post', ei)
+                                continue
                             bad('C17.enter-raises', f'{mgr}|{type(ex).__name__}',
                                 f'entering {mgr}{a} raised {type(ex).__name__}: {ex}; '
                                 f'frames={frames}', ti, ei)
@@ -937,6 +949,10 @@ CANARIES = {
         'pyglove.core.views.base', None, 'view_options',
         'options = utils.merge([parent_options, kwargs])',
         'options = dict(parent_options, **kwargs)'),
+    'detour_enter_inside_try': _canary(
+        'pyglove.core.detouring.class_detour', None, 'detour',
+        '  resolved_mappings = _global_detour_context.enter_scope(mappings)\n  try:\n    yield resolved_mappings\n',
+        '  try:\n    yield _global_detour_context.enter_scope(mappings)\n'),
     'detour_leave_pops_bottom': _canary(
         'pyglove.core.detouring.class_detour', '_DetourContext', 'leave_scope',
         'self._detour_stack.pop(-1)', 'self._detour_stack.pop(0)'),
